@@ -159,7 +159,8 @@ def class_edges(snap):
 class Resolver:
     """dependencies derived from Cartesian parser dictionaries alone"""
 
-    def __init__(self, repo, vm_variant, net="net1"):
+    def __init__(self, repo, vm_variant, net="net1", force_vm=None):
+        self.force_vm = force_vm
         from virttest import cartesian_config
         self.cc = cartesian_config
         self.cfg = os.path.join(repo, "tp_folder", "configs")
@@ -167,8 +168,11 @@ class Resolver:
         self.home = os.environ["HOME"]
         self.vm_variant, self.net = vm_variant, net
         self.cache = {}
+        self.states = {}
 
     def dicts(self, test_restr, vms):
+        if self.force_vm:
+            vms = [self.force_vm]
         key = (test_restr, tuple(vms))
         if key in self.cache:
             return self.cache[key]
@@ -183,6 +187,9 @@ class Resolver:
         p.parse_file(self.home + "/avocado_overwrite_tests.cfg")
         p.parse_string("only %s\n" % test_restr)
         p.parse_string("nets = %s\n" % self.net)
+        if self.force_vm:
+            # the update tool composes every test of the remove set for the one vm (vms=<vm> in its parameters)
+            p.parse_string("vms = %s\n" % self.force_vm)
         self.cache[key] = list(p.get_dicts())
         return self.cache[key]
 
@@ -218,6 +225,8 @@ class Resolver:
             p.parse_file(self.cfg + "/sets.cfg")
             p.parse_string("only %s\n" % restr)
             self.cache[key] = [(d["name"], d.get("vms", "").split()) for d in p.get_dicts()]
+        if self.force_vm:
+            return [(n, [self.force_vm]) for n, v in self.cache[key]]
         return [(n, v or list(default_vms)) for n, v in self.cache[key]]
 
     def producers(self, get, obj):
@@ -228,7 +237,7 @@ class Resolver:
             if vm not in pvms:
                 continue
             for pd in self.dicts(name, pvms):
-                if set(pd.get("vms", "").split()) != set(pvms):
+                if not self.force_vm and set(pd.get("vms", "").split()) != set(pvms):
                     continue
                 ps = self.view(pd, obj).get("set_state")
                 if ps:
@@ -236,13 +245,25 @@ class Resolver:
         return out
 
     def resolve(self, test_restr, vms, seen, edges):
+        if self.force_vm:
+            vms = [self.force_vm]
         for d in self.dicts(test_restr, vms):
-            if set(d.get("vms", "").split()) != set(vms):
+            if not self.force_vm and set(d.get("vms", "").split()) != set(vms):
                 continue
             me = (short(d["name"]), tuple(vms))
             if me in seen:
                 continue
             seen.add(me)
+            # states the variant starts from / leaves, per object (for the per-vm state derivation used by C15)
+            info = self.states.setdefault("%s@%s" % (me[0], ".".join(vms)), {"gets": {}, "sets": {}})
+            for obj in self.objects_of(d):
+                v = self.view(d, obj)
+                typ, vm, img = obj
+                ok_ = "%s_%s_%s" % (typ, img, vm) if img else "%s_%s" % (typ, vm)
+                if v.get("get_state") and v.get("get_state") not in ROOTISH:
+                    info["gets"][ok_] = v.get("get_state")
+                if v.get("set_state") and v.get("set_state") not in ROOTISH:
+                    info["sets"][ok_] = v.get("set_state")
             fixed, ambiguous = [], []
             for obj in self.objects_of(d):
                 v = self.view(d, obj)
@@ -265,9 +286,14 @@ class Resolver:
                 assert len(ambiguous) == 1, "products of several multi-producer dependencies are not resolved independently"
                 okey_, prods = ambiguous[0]
                 names = []
+                self.states.pop("%s@%s" % (me[0], ".".join(vms)), None)   # the clone source only stands for its clones
                 for pname, pvms, ps in prods:
                     clone = me[0] + "." + ps
                     names.append(clone)
+                    # a clone starts from its producer's state and leaves branch-specific state names
+                    cinfo = {"gets": dict(info["gets"]), "sets": {k: x + "." + ps for k, x in info["sets"].items()}}
+                    cinfo["gets"][okey_] = ps
+                    self.states["%s@%s" % (clone, ".".join(vms))] = cinfo
                     edges.add(("%s@%s" % (clone, ".".join(vms)), "%s@%s" % (pname, ".".join(pvms)), okey_))
             for n in names:
                 for okey_, (pname, pvms, ps) in fixed:
